@@ -188,6 +188,22 @@ var ruleParseResult = &Rule{
 				continue
 			}
 			calls := callsTo(fn, pParse)
+			// a helper of the package that wraps parser.Parse (whole input in,
+			// (tree, nil) or (nil, error wrapping the sentinel) out) stands
+			// for it; its error is then already wrapped
+			wrapped := map[*ssa.Call]string{}
+			if len(calls) == 0 {
+				for _, c := range p.allCalls(fn) {
+					sc := c.Call.StaticCallee()
+					if sc == nil || sc == fn || fnPkgPath(sc) != pkgPath || len(c.Call.Args) != 1 {
+						continue
+					}
+					if sent, ok := p.parseWrapper(sc, pParse); ok {
+						calls = append(calls, c)
+						wrapped[c] = sent
+					}
+				}
+			}
 			if len(calls) == 0 {
 				out.viol("path."+ws.fn+" calls parser.Parse", p.pos(fn.Pos()), fnName(fn), "does not hand its input to parser.Parse")
 				continue
@@ -239,6 +255,9 @@ var ruleParseResult = &Rule{
 							e := p.shapeOf(res[len(res)-1])
 							key := fmt.Sprintf("path.%s on parse failure returns %s", ws.fn, e)
 							good := e.Kind == "errorf" && len(e.Sentinels) > 0 && e.Sentinels[0] == ws.sentinel && p.errorfMentions(e, errV)
+							if wrapped[c] != "" && wrapped[c] == ws.sentinel && stripConv(res[len(res)-1]) == errV {
+								good = true // the helper has wrapped it already
+							}
 							if ws.kind == "value" {
 								good = good && p.shapeOf(res[0]).Kind == "nil"
 							}
@@ -254,19 +273,31 @@ var ruleParseResult = &Rule{
 							switch ws.kind {
 							case "value", "must":
 								v := p.shapeOf(res[0])
-								if v.Kind == "alloc" && (ws.kind == "must" || e.Kind == "nil") && p.allocHolds(fn, res[0], treeV) {
+								if (ws.kind == "must" || e.Kind == "nil") && ((v.Kind == "alloc" && p.allocHolds(fn, res[0], treeV)) || p.ctorHolds(res[0], treeV)) {
 									out.ok(key, p.pos(t.Pos()), fnName(fn), "returns a fresh Path holding the parsed tree")
 								} else {
 									out.viol(key, p.pos(t.Pos()), fnName(fn), "success does not return a fresh Path holding the parsed tree and a nil error")
 								}
 							case "errorOnly":
-								if e.Kind == "nil" && p.storesTree(fn, b, treeV) {
-									out.ok(key, p.pos(t.Pos()), fnName(fn), "stores the parsed tree into the receiver and returns nil")
-								} else {
-									out.viol(key, p.pos(t.Pos()), fnName(fn), "success does not store the parsed tree into the receiver / return nil")
-								}
+								// decided below, along the paths from the success edge
+								_, _ = e, b
 							}
 						}
+					}
+				}
+				if ws.kind == "errorOnly" {
+					// every path from the edge where the parse error is known to
+					// be nil to a return stores the tree through the receiver,
+					// and the returns reached hand back a nil error
+					key := fmt.Sprintf("path.%s on parse success", ws.fn)
+					entries, why := p.successPaths(fn, errV, treeV)
+					nokk = entries
+					switch {
+					case entries == 0:
+					case why != "":
+						out.viol(key, p.pos(c.Pos()), fnName(fn), "success does not store the parsed tree into the receiver / return nil: "+why)
+					default:
+						out.ok(key, p.pos(c.Pos()), fnName(fn), "every path from the success edge stores the parsed tree into the receiver and returns nil")
 					}
 				}
 				if nerr == 0 {
@@ -285,6 +316,7 @@ var ruleParseResult = &Rule{
 					case e.Kind == "nil":
 					case e.Kind == "errorf" && len(e.Sentinels) > 0 && e.Sentinels[0] == ws.sentinel:
 					case e.Kind == "call" && strings.Contains(e.Callee, "path.Path)."):
+					case e.Kind == "call" && wrapsWith(p, fn, r.Results[len(r.Results)-1], pParse, ws.sentinel):
 					default:
 						out.viol(fmt.Sprintf("path.%s returns %s", ws.fn, e), p.pos(r.Instr.Pos()), fnName(fn), "an error that does not wrap "+ws.sentinel)
 					}
@@ -307,6 +339,155 @@ var ruleParseResult = &Rule{
 		}
 		return out
 	},
+}
+
+// parseWrapper: g hands its parameter to parser.Parse and returns (tree, nil)
+// on success and (nil, error wrapping one sentinel and the parser's error) on
+// failure, nothing else.
+func (p *Prog) parseWrapper(g, pParse *ssa.Function) (string, bool) {
+	if g == nil || g.Blocks == nil || g.Signature.Results().Len() != 2 {
+		return "", false
+	}
+	calls := callsTo(g, pParse)
+	if len(calls) != 1 || !derivesFromParam(calls[0].Call.Args[0]) {
+		return "", false
+	}
+	errV, treeV := extractOf(calls[0], 1), extractOf(calls[0], 0)
+	if errV == nil || treeV == nil {
+		return "", false
+	}
+	sent := ""
+	nok, nerr := 0, 0
+	for _, er := range expandedReturns(g) {
+		isNil, notNil := nilFact(er.Facts, errV)
+		e := p.shapeOf(er.Results[1])
+		switch {
+		case notNil:
+			if p.shapeOf(er.Results[0]).Kind != "nil" || e.Kind != "errorf" || len(e.Sentinels) == 0 || !p.errorfMentions(e, errV) {
+				return "", false
+			}
+			if sent != "" && sent != e.Sentinels[0] {
+				return "", false
+			}
+			sent = e.Sentinels[0]
+			nerr++
+		case isNil:
+			if stripConv(er.Results[0]) != treeV || e.Kind != "nil" {
+				return "", false
+			}
+			nok++
+		default:
+			return "", false
+		}
+	}
+	return sent, nok > 0 && nerr > 0
+}
+
+// wrapsWith: v is the error result of a call to a parse wrapper with the sentinel.
+func wrapsWith(p *Prog, fn *ssa.Function, v ssa.Value, pParse *ssa.Function, sentinel string) bool {
+	c, idx := callOf(v)
+	if c == nil || idx != 1 {
+		return false
+	}
+	sent, ok := p.parseWrapper(c.Call.StaticCallee(), pParse)
+	return ok && sent == sentinel
+}
+
+// ctorHolds: v is the result of a constructor of the package that returns a
+// fresh value holding its argument, and that argument is tree.
+func (p *Prog) ctorHolds(v, tree ssa.Value) bool {
+	c, ok := stripConv(v).(*ssa.Call)
+	if !ok || tree == nil {
+		return false
+	}
+	g := c.Call.StaticCallee()
+	if g == nil || g.Blocks == nil || fnPkgPath(g) != pkgPath || g.Signature.Results().Len() != 1 {
+		return false
+	}
+	idx := -1
+	for i, a := range c.Call.Args {
+		if a == tree {
+			idx = i
+		}
+	}
+	if idx < 0 || idx >= len(g.Params) {
+		return false
+	}
+	rets := returnsOf(g)
+	for _, r := range rets {
+		if p.shapeOf(r.Results[0]).Kind != "alloc" || !p.allocHolds(g, r.Results[0], g.Params[idx]) {
+			return false
+		}
+	}
+	return len(rets) > 0
+}
+
+// successPaths: the number of edges on which errV becomes known nil, and why
+// some path from one of them reaches a return without storing tree through
+// the receiver, or returns a non-nil error.
+func (p *Prog) successPaths(fn *ssa.Function, errV, tree ssa.Value) (int, string) {
+	if tree == nil {
+		return 0, "the parsed tree is not used"
+	}
+	stores := func(b *ssa.BasicBlock) bool {
+		for _, ins := range b.Instrs {
+			st, ok := ins.(*ssa.Store)
+			if !ok || st.Val != tree {
+				continue
+			}
+			pv := p.provenance(fn, st.Addr)
+			if pv.hasKind("param") || pv.hasKind("alloc-local") || pv.hasKind("alloc-heap") {
+				return true
+			}
+		}
+		return false
+	}
+	entries := 0
+	why := ""
+	for _, b := range fn.Blocks {
+		isNil, _ := nilFact(factsAt(b), errV)
+		if !isNil {
+			continue
+		}
+		if id := b.Idom(); id != nil {
+			if n, _ := nilFact(factsAt(id), errV); n {
+				continue
+			}
+		}
+		entries++
+		// walk: stored tells whether the store has been passed
+		type st struct {
+			b      *ssa.BasicBlock
+			stored bool
+		}
+		seen := map[st]bool{}
+		work := []st{{b, false}}
+		for len(work) > 0 {
+			cur := work[len(work)-1]
+			work = work[:len(work)-1]
+			if seen[cur] {
+				continue
+			}
+			seen[cur] = true
+			stored := cur.stored || stores(cur.b)
+			if r, ok := cur.b.Instrs[len(cur.b.Instrs)-1].(*ssa.Return); ok {
+				if !stored && why == "" {
+					why = "the return at " + p.pos(r.Pos()) + " is reached without the tree having been stored"
+				}
+				ev := unspill(cur.b, r, r.Results[len(r.Results)-1])
+				if e := p.shapeOf(ev); e.Kind != "nil" && why == "" {
+					if _, isPhi := stripConv(ev).(*ssa.Phi); !isPhi {
+						why = "the return at " + p.pos(r.Pos()) + " hands back " + e.String()
+					}
+				}
+				continue
+			}
+			for _, s := range cur.b.Succs {
+				work = append(work, st{s, stored})
+			}
+		}
+	}
+	return entries, why
 }
 
 func fieldName(fa *ssa.FieldAddr) string {
